@@ -590,7 +590,12 @@ func (s *Source) onPersistFlushed(seq uint64, err error) {
 		// ack the plugin for a write that did not durably land — the queued
 		// positions stay queued; there is nothing safe to send, and this
 		// connector is on its way down regardless.
-		s.errs <- err
+		//
+		// The send must not outlive the stream: once the node has stopped
+		// reading errs (the connector is being torn down) a plain send would
+		// block this callback forever, and with it Persister.WaitPendingWrites
+		// - which lifecycle.StopAndWait calls without a bound.
+		s.escalateDeferredAckFailure(err)
 		return
 	}
 
